@@ -150,7 +150,10 @@ func VerifC09Value() {
 	has := verif.Bool("has")
 	var v string
 	stringTyped := typ != "integer" && typ != "number" && typ != "boolean" && typ != "array"
-	if !stringTyped || format != "uuid" {
+	if typ == "integer" && verif.Bool("longDigits") {
+		// integers up to 12 characters: beyond the 32-bit range, within the 64-bit one
+		v = verif.StringIn("vi", 12, "0-9+-")
+	} else if !stringTyped || format != "uuid" {
 		v = verif.String("v", 6)
 	} else if verif.Bool("len36") {
 		// exactly 36 characters: a well-formed uuid in which one or two positions (a hex
